@@ -247,7 +247,7 @@ def const_int(e, value):
 
 
 @rule('C05.R2', 'FileStorage abort undoes the vote: truncate to the committed '
-      'end, drop reader buffers, reset, clear staging', props=['C02'],
+      'end, drop reader buffers, reset, clear staging', props=['C02', 'C04'],
       min_instances=1)
 def r2(R):
     cls = R.prog.cls(FS)
